@@ -72,6 +72,18 @@ def r02_2_join_payload(ctx: Ctx, rule: str = "R02.2") -> None:
                 reported.add(inst)
                 missing = [x for x, nm in (("lhs", lp), ("rhs", rp)) if not sl.reads(nm, field)]
                 run.fail(rule, inst, f"`{field}` of the joined Payload does not draw on the {'/'.join(missing)} operand's {field} (its rows/filters would be lost)", fi=f, node=v, details=describe(p))
+        # the ON clause is always an explicit SQL expression (None makes SQLAlchemy look for foreign keys)
+        fc = kw(v, "from_clause") or (v.args[0] if v.args else None)
+        for jc in [n for n in ast.walk(fc) if isinstance(n, ast.Call) and call_attr(n) == "join"] if fc is not None else []:
+            oc = kw(jc, "onclause") or (jc.args[1] if len(jc.args) > 1 else None)
+            ob = resolve_name(p, oc.id) if isinstance(oc, ast.Name) else oc
+            inst = "join:on-clause:explicit"
+            if ob is None or (isinstance(ob, ast.Constant) and ob.value is None):
+                if inst not in reported:
+                    reported.add(inst)
+                    run.fail(rule, inst, "the JOIN is emitted without an explicit ON clause on some path (onclause=None): SQLAlchemy then tries to infer one from foreign keys and a join without common columns and predicate cannot be compiled", fi=f, node=jc, details=describe(p))
+            else:
+                run.ok(rule, inst)
         # ON clause: equality of every common column from both payloads, and the predicate
         a = kw(v, "from_clause") or (v.args[0] if v.args else None)
         sl = backward_slice(p, [a], start=idx, control=False)
@@ -285,15 +297,30 @@ def r02_3_hoisted_projection(ctx: Ctx, rule: str = "R02.3") -> None:
         b = _resolve_deep(p, pr) if pr is not None else None
         from ..astutil import names_read
 
-        decide = [st for st in p.steps[idx:] if st.kind == "cond" and {lhs, rhs} <= set().union(*[origin[x] for x in names_read(st.node) if x in origin])]
-        needs = [x for x in names_read(decide[-1].node) if x in origin] if decide else []
-        if not decide:
-            raise AnalysisError("the Join arm no longer decides the hoisted projection on both strip() results together")
+        # the decision: one test of both flags together (`if a or b`), or one plain test per flag (`if a: ... if b: ...`)
         from ..facts import step_facts
 
-        dfacts = step_facts(decide[-1])
-        none_needed = all(any(fct.kind == "TRUTH" and fct.args == (n,) and not fct.polarity for fct in dfacts) for n in needs)
-        any_needed = not none_needed
+        joint = [st for st in p.steps[idx:] if st.kind == "cond" and {lhs, rhs} <= set().union(*[origin[x] for x in names_read(st.node) if x in origin])]
+        if joint:
+            needs = [x for x in names_read(joint[-1].node) if x in origin]
+            dfacts = step_facts(joint[-1])
+            none_needed = all(any(fct.kind == "TRUTH" and fct.args == (n,) and not fct.polarity for fct in dfacts) for n in needs)
+            any_needed = not none_needed
+        else:
+            states: dict[str, bool] = {}
+            for st in p.steps[idx:]:
+                if st.kind != "cond":
+                    continue
+                t = st.node
+                pol = st.value
+                while isinstance(t, ast.UnaryOp) and isinstance(t.op, ast.Not):
+                    t, pol = t.operand, not pol
+                if isinstance(t, ast.Name) and t.id in origin and len(origin[t.id]) == 1:
+                    states[next(iter(origin[t.id]))] = bool(pol)
+            if set(states) != {lhs, rhs}:
+                raise AnalysisError("the Join arm no longer decides the hoisted projection from the strip() results")
+            any_needed = any(states.values())
+            none_needed = not any_needed
         if any_needed and not none_needed:
             inst = "join:projection-hoisted"
             ok = isinstance(b, ast.Call) and (dotted(b.func) or "").split(".")[-1] == "Projection" and b.args
@@ -636,6 +663,9 @@ def r_identifier_agreement(ctx: Ctx, rule: str) -> None:
                 elif mentions_name:
                     seen += 1
                     run.fail(rule, f"{f.qualname}:lookup@{src(n.value)[:30]}", f"a column is looked up under `{src(idx)[:60]}` instead of self.get_identifier(<tag>)", fi=f, node=n)
+            elif isinstance(n, ast.Call) and isinstance(n.func, ast.Name) and n.func.id in ("getattr", "hasattr") and len(n.args) >= 2 and any(_is_gid(x) for x in ast.walk(n.args[1])):
+                seen += 1
+                run.fail(rule, f"{f.qualname}:lookup@getattr", f"`{src(n)[:70]}` looks a column up as an *attribute* of the column collection: a column named like one of the collection's own attributes (keys, values, items, get, ...) resolves to that attribute instead - columns are looked up by subscript", fi=f, node=n)
             elif isinstance(n, ast.Attribute) and n.attr == "qualified_name":
                 # the only other legitimate use: an ordering key (sorted(..., key=lambda tag: tag.qualified_name))
                 par = parents.get(id(n))
@@ -761,3 +791,38 @@ def r_flattened_predicate(ctx: Ctx, rule: str) -> None:
             )
     if n == 0:
         raise AnalysisError("convert_flattened_predicate has no returning path")
+
+
+def r_select_hooks_get_selects(ctx: Ctx, rule: str) -> None:
+    """The internal *_to_select hooks read Select-only attributes before any engine check."""
+    run, m = ctx.run, ctx.m
+    run.rule(
+        rule,
+        "every relation handed to _append_unary_to_select / _append_binary_to_select is `self.conform(<operand>)` (a Select of "
+        "this engine, or conform's own refusal): the hooks read has_sort / has_slice before Join/Chain validation compares "
+        "engines, so an operand conformed by another engine turns the documented EngineError into AttributeError",
+        expected_min=3,
+    )
+    eng = ctx.cls(SQL_ENGINE, "Engine")
+    n = 0
+    for f in eng.methods.values():
+        for p in ctx.paths(f):
+            for j, c in path_calls(p):
+                if call_attr(c) not in ("_append_unary_to_select", "_append_binary_to_select"):
+                    continue
+                if not (isinstance(c.func, ast.Attribute) and src(c.func.value) == "self"):
+                    continue
+                for pos, a in enumerate(c.args[1:], start=1):
+                    n += 1
+                    b = resolve_name(p, a.id, j) if isinstance(a, ast.Name) else a
+                    inst = f"{f.qualname}:{call_attr(c)}:arg{pos}"
+                    ok = isinstance(b, ast.Call) and call_attr(b) == "conform" and isinstance(b.func, ast.Attribute) and src(b.func.value) == "self"
+                    # a recursive call may pass on what it was given as a Select
+                    if not ok and isinstance(a, ast.Name) and a.id in f.params and "Select" in src(f.param_annotation(a.id) or ast.Constant("")):
+                        ok = True
+                    if ok:
+                        run.ok(rule, inst)
+                    else:
+                        run.fail(rule, inst, f"`{src(c)[:80]}` receives `{src(b)[:50] if isinstance(b, ast.AST) else src(a)}` instead of self.conform(<operand>): an operand of another engine reaches code that assumes a Select", fi=f, node=c)
+    if n == 0:
+        raise AnalysisError("no call of the *_to_select hooks found")
